@@ -267,6 +267,47 @@ def fixed_cases():
     return out
 
 
+def patch_kernels(ctx):
+    """`blend::patch` (hook H2 `patch_values_probe`) against `Jxl.Blend.patchPixel` at Float32, bit
+    for bit: every patch blend mode (above / below variants swap the operands), clamp, straight and
+    premultiplied alpha, alpha channel before / after the channel, values below 0 and above 1"""
+    rng = ctx.rng
+    def fbits(x):
+        return struct.unpack("<I", struct.pack("<f", x))[0]
+    def val():
+        r = rng.random()
+        if r < 0.2:
+            return rng.choice([0.0, 1.0, 0.5, -0.25, 1.5, 2.0, -1.0])
+        if r < 0.8:
+            return rng.random()
+        return rng.uniform(-1.0, 2.5)
+    lines, metas = [], []
+    for _ in range(400 if ctx.quick else 12000):
+        cc = rng.choice([1, 3])
+        nec = rng.randint(0, 3)
+        aa = [rng.choice([-1, 0, 0, 1]) for _ in range(nec)]
+        npix = 4
+        infos = []
+        for _ in range(1 + nec):
+            mode = rng.randrange(8) if nec else rng.randrange(4)
+            infos.append((mode, rng.randrange(nec) if nec else 0, rng.randrange(2)))
+        vals = [fbits(val()) for _ in range(2 * (cc + nec) * npix)]
+        lines.append(f"patch {cc} {nec} " + " ".join(map(str, aa)) + (" " if aa else "") + f"{npix} "
+                     + " ".join(f"{m} {a} {c}" for m, a, c in infos) + " " + " ".join(map(str, vals)))
+        lines[-1] = " ".join(lines[-1].split())
+        metas.append(infos)
+    impl = run_lines_robust([ctx.harness_bin("c05")], lines, per_line_timeout=30)
+    spec = run_lines_robust([MODEL_EXE, "c05"], lines, per_line_timeout=30)
+    for line, infos, a, b in zip(lines, metas, impl, spec):
+        ctx.case(("patch", line), nontrivial=any(m >= 4 for m, _, _ in infos))
+        for m, _, c in infos:
+            ctx.count(f"patch-mode:{m}{'+clamp' if c and m >= 3 else ''}")
+        if a != b:
+            ctx.violation("patch-arithmetic-differs-from-the-blend-rules", {"impl": (a or "")[:300], "spec": (b or "")[:300]},
+                          {"op": line, "how": "echo '<op>' | harness/target/debug/c05 ; echo '<op>' | lean/.lake/build/bin/jxlmodel c05"},
+                          key="c05:patch-kernel")
+
+
 def run(ctx):
     ok = ctx.lean_build(MODULES)
     if ok:
@@ -304,6 +345,7 @@ def run(ctx):
                    [(r.get("order_kind", "replay"), r.get("fresh", 0), order, ans)], r.get("expect"), r.get("orient", 1))
         return
     run_cases(ctx, cases, "corpus+fixed")
+    patch_kernels(ctx)
     fixture_check(ctx)
     n = 1200 if ctx.quick else 14000
     gen = []
